@@ -46,6 +46,8 @@ func runC01(c *RunCtx) {
 	bindStormPrograms(c, 16, 80)
 	livePurgePrograms(c, 8, 32)
 	closeRacePrograms(c, 12, 60)
+	// one state-changing call races a few submissions and nothing happens afterwards: everything accepted still runs
+	notifyPrograms(c, 40, 200)
 	runC01Burst(c)
 }
 
@@ -65,12 +67,26 @@ func runC05(c *RunCtx) {
 		ExploreOpts{Base: 3, K: c.Q(2, 4), Funcs: anchoredOr(c, append([]string{"Wait", "Response", "Send", "Drain", "WgCounter"}, dispatchFuncs...)), Pairs: c.Q(20, 120), MaxCases: c.Q(200, 4000)})
 	batchPrograms(c, 96, 600)
 	purgeBurstPrograms(c, 16, 64)
+	ctxInflightPrograms(c, 16, 80)
+	closeRacePrograms(c, 24, 120, true)
 }
 
 func batchPrograms(c *RunCtx, nq, nt int) {
 	for v := 0; v < c.Q(nq, nt); v++ {
 		c.Program(fmt.Sprintf("batch/%d", v), func(p *Prog) {
 			cfg := drawBatch(p.Rng, false)
+			if v%4 == 1 {
+				// batches one after the other, each submitted when the previous one has finished
+				cfg.Gated, cfg.Purge, cfg.Reject, cfg.LateRead, cfg.Seq = false, 0, 0, false, true
+				if v%8 == 1 {
+					cfg.WK = WPlain
+				}
+				for len(cfg.Sizes) < 3 {
+					sz := Pick(p.Rng, 2, 3, 7)
+					cfg.Sizes = append(cfg.Sizes, sz)
+					cfg.Out = append(cfg.Out, make([]int, sz))
+				}
+			}
 			p.Explore(func(pl Plan) *Result { return epBatch(c, cfg) },
 				ExploreOpts{Base: 4, Noise: c.Q(15, 80), K: c.Q(2, 4), Funcs: anchoredOr(c, batchFuncs), Pairs: c.Q(15, 100), MaxCases: c.Q(120, 2500)})
 		})
@@ -107,6 +123,8 @@ func runC16(c *RunCtx) {
 		ExploreOpts{Base: 3, Noise: c.Q(20, 100), K: c.Q(2, 4), Funcs: anchoredOr(c, dispatchFuncs), Pairs: c.Q(20, 120), MaxCases: c.Q(200, 4000)})
 	// batch items have no handle of their own: their status is read through the job value the worker function received
 	batchPrograms(c, 48, 240)
+	// the worker's context is cancelled while functions are executing
+	ctxInflightPrograms(c, 24, 120)
 }
 
 func runC17(c *RunCtx) {
@@ -120,6 +138,7 @@ func runC17(c *RunCtx) {
 	gatePrograms(c, "gate", 32, 160, gateBias{Adapters: true, MaxOps: 12, Expiry: 10, Tune: true, Life: true}, gateOpts(c))
 	lenPrograms(c, 16, 64)
 	bindStormPrograms(c, 32, 160)
+	closeRacePrograms(c, 16, 80)
 	batchPrograms(c, 48, 300)
 	for v := 0; v < c.Q(32, 200); v++ {
 		c.Program(fmt.Sprintf("ack/%d", v), func(p *Prog) {
@@ -172,4 +191,5 @@ func runC18(c *RunCtx) {
 	reaperPrograms(c, 32, 160)
 	tuneRacePrograms(c, 32, 160)
 	cyclesPrograms(c, 48, 240)
+	poolModePrograms(c, 32, 160)
 }
